@@ -98,6 +98,8 @@ TSend ==
 \* Packet consumer has just taken (only if that frame was well formed and carried this
 \* connection's identifier pair; its content verb is the frame's)
 TPut == /\ More /\ E.k = "put" /\ At(E.t)
+        \* only the network and the Packet consumer put datagrams into the queue: no consumer hands back what it took
+        /\ ("by" \in DOMAIN E) => (E.requeue \/ E.by = "-")
         /\ IF E.requeue
            THEN pk.ok /\ pk.verb = E.verb /\ pk' = NoPk
            ELSE UNCHANGED pk
@@ -125,7 +127,8 @@ TPop == /\ More /\ E.k = "pop" /\ At(E.t)
 TRet == /\ More /\ E.k = "ret" /\ At(E.t)
         /\ LET cl == calls[E.c] IN
            /\ cl.active
-           /\ (cl.gated /\ ~cl.gate) => (E.result = "refused" /\ cl.attempts = 0)
+           \* (a call that its owner cancelled ends whenever the owner says so: nothing is demanded of it)
+           /\ (cl.gated /\ ~cl.gate /\ E.result # "cancelled") => (E.result = "refused" /\ cl.attempts = 0)
            /\ E.result = "reply" => cl.gotreply                     \* a reply only if one was delivered to it
            \* (after the transport was lost the remaining attempts leave no trace on the wire)
            /\ E.result = "fail" => (~cl.gotreply /\ (cl.attempts = R \/ (down /\ cl.attempts <= R)))
@@ -133,7 +136,7 @@ TRet == /\ More /\ E.k = "ret" /\ At(E.t)
            \* an API call may end with an exception only because the connection went away underneath it
            /\ E.result = "raised" => down
            \* finishes within retry-count x (timeout + pause), on the polling grid
-           /\ cl.attempts > 0 => E.t - cl.first <= R * (T + P) + R * Poll + Eps + (stallAcc - cl.stall0)
+           /\ (cl.attempts > 0 /\ E.result # "cancelled") => E.t - cl.first <= R * (T + P) + R * Poll + Eps + (stallAcc - cl.stall0)
         /\ calls' = [calls EXCEPT ![E.c] = NoCall]
         /\ order' = SelectSeq(order, LAMBDA x : x # E.c)
         /\ out' = IF out.c = E.c THEN NoReq ELSE out
